@@ -41,7 +41,7 @@ sensitivity|seeded|baseline)
         rsync -a --exclude _build --exclude .git /repo/ "$SCR/"
         if ! patch -s -p1 -d "$SCR" < "$f"; then echo "selftest: $name: patch does not apply"; rm -rf "$SCR"; MISSED=$((MISSED+1)); continue; fi
         if [ "$MODE" = baseline ]; then
-            if "$ROOT/tools/baseline.sh" "$SCR" > "$SCR.log" 2>&1; then echo "baseline ok   $name"; else echo "baseline FAIL $name"; tail -3 "$SCR.log"; MISSED=$((MISSED+1)); fi
+            if BASELINE_TIMEOUT=120 "$ROOT/tools/baseline.sh" "$SCR" > "$SCR.log" 2>&1; then echo "baseline ok   $name"; else echo "baseline FAIL $name"; tail -3 "$SCR.log"; MISSED=$((MISSED+1)); fi
             rm -rf "$SCR" "$SCR.log"; continue
         fi
         ALT="$ROOT/build/alt-mut.$$"; rm -rf "$ALT"; rsync -a "$ROOT/build/main/" "$ALT/"
